@@ -24,7 +24,7 @@ using namespace wn;
 
 namespace {
 
-enum Outcome { O_CONFLICTED = 0, O_ABANDONED, O_UNTRUSTED, O_CB_MATURED, O_REORG, O_RESERVED, O_TRUSTED_POOL, O_MEMPOOL_CONFLICT, O_IMMATURE_CHANGED, O_RESTORED, O_HARNESS_ERROR = 15 };
+enum Outcome { O_CONFLICTED = 0, O_ABANDONED, O_UNTRUSTED, O_CB_MATURED, O_REORG, O_RESERVED, O_TRUSTED_POOL, O_MEMPOOL_CONFLICT, O_IMMATURE_CHANGED, O_RESTORED, O_UNTRUSTED_FROM_ME, O_HARNESS_ERROR = 15 };
 
 struct Sim {
     ck::Node& n;
@@ -112,10 +112,23 @@ struct Sim {
         for (int i = 0; i < 16 && !OnActive(head); i++) { head = w.Mine(head, {}); n_blocks++; }
         if (!OnActive(head)) throw std::logic_error("competing branch did not become active");
     }
-    CTransactionRef BuildSend(const RefView& v, bool& ok)
+    // unsafe = true: the wallet spends the newest coin it holds that is NOT safe (an unconfirmed payment from a stranger,
+    // or own change whose ancestor is one) together with the oldest safe coin: the result is a from-me mempool
+    // transaction with an untrusted unconfirmed ancestor (untrusted pending, unsafe outputs)
+    CTransactionRef BuildSend(const RefView& v, bool& ok, bool unsafe = false)
     {
         ok = false;
         std::vector<RefCoinOut> c = v.coins_safe;
+        if (unsafe) {
+            std::vector<RefCoinOut> u;
+            for (auto& x : v.coins_all) if (!x.safe) u.push_back(x);
+            if (u.empty()) return nullptr;
+            auto pick = std::min_element(u.begin(), u.end(), [](const RefCoinOut& a, const RefCoinOut& b) { return a.op < b.op; });
+            // depth -1 sorts it as the "newest" below
+            RefCoinOut first = *pick;
+            first.depth = -1;
+            c.push_back(first);
+        }
         if (c.empty()) return nullptr;
         auto newest = std::min_element(c.begin(), c.end(), [](const RefCoinOut& a, const RefCoinOut& b) { return a.depth != b.depth ? a.depth < b.depth : a.op < b.op; });
         auto oldest = std::max_element(c.begin(), c.end(), [](const RefCoinOut& a, const RefCoinOut& b) { return a.depth != b.depth ? a.depth < b.depth : a.op < b.op; });
@@ -167,6 +180,7 @@ struct Sim {
         if (n_rb < 2) add("RB");
         if (n_rm < 2) add("RM");
         if (!v.coins_safe.empty() && n_send < 4) { add("S"); add("SU"); }
+        if (n_send < 4) for (auto& x : v.coins_all) if (!x.safe) { add("SX"); break; }
         if (Latest(v, w.order, {St::INACTIVE})) add("AB");
         if (Latest(v, w.order, {St::INACTIVE, St::ABANDONED})) add("RS");
         if (!v.pool.empty()) add("M");
@@ -258,16 +272,16 @@ struct Sim {
             }
             recvs.push_back(tx->GetHash());
             recv_funding[tx->GetHash()] = ext.at(0).value;
-        } else if (e == "S" || e == "SU") {
+        } else if (e == "S" || e == "SU" || e == "SX") {
             bool ok;
-            auto tx = BuildSend(v, ok);
+            auto tx = BuildSend(v, ok, e == "SX");
             if (!ok) return;
             w.wn->Commit(tx);
             w.Note(tx);
             if (!w.known.count(tx->GetHash())) throw std::logic_error("send not relevant?");
             sends.push_back(tx->GetHash());
             n_send++;
-            if (e == "S") {
+            if (e != "SU") {
                 auto r = w.Submit(tx);
                 if (r.m_result_type != MempoolAcceptResult::ResultType::VALID) throw std::logic_error("wallet send rejected by the mempool: " + r.m_state.ToString());
             }
@@ -380,6 +394,17 @@ struct Sim {
         if (any_mc) oc[O_MEMPOOL_CONFLICT]++;
         if (restored) oc[O_RESTORED]++;
         if (v.untrusted_pending > 0) oc[O_UNTRUSTED]++;
+        // a mempool transaction that spends wallet coins but is not trusted because an unconfirmed ancestor is not
+        for (auto& [id, tx] : v.pool) {
+            bool from_me = false;
+            for (auto& in : tx->vin) {
+                auto k = w.known.find(in.prevout.hash);
+                if (k != w.known.end() && in.prevout.n < k->second.tx->vout.size() && w.wn->scripts.count(k->second.tx->vout[in.prevout.n].scriptPubKey)) from_me = true;
+            }
+            bool pays_me = false;
+            for (auto& o : tx->vout) if (w.wn->scripts.count(o.scriptPubKey)) pays_me = true;
+            if (from_me && pays_me && !v.Trusted(id)) { oc[O_UNTRUSTED_FROM_ME]++; break; }
+        }
         for (auto& c : v.coins_safe) {
             if (c.op.hash == cb1) oc[O_CB_MATURED]++;
             if (c.depth == 0) oc[O_TRUSTED_POOL]++;
@@ -439,7 +464,7 @@ int main(int argc, char** argv)
     sim.Init();
     if (ck::ThreadCount() != 1) { printf("HARNESS-ERROR process is not single-threaded (%d threads): fork exploration would be unsound\n", ck::ThreadCount()); return 2; }
 
-    const std::vector<std::string> full{"S", "DS", "RO1", "SU", "AB", "DM", "RX", "M", "RM", "RB", "DR", "ME", "CBW", "RS", "RO2", "RO3"};
+    const std::vector<std::string> full{"S", "DS", "RO1", "RM", "SX", "SU", "AB", "DM", "RX", "M", "RB", "DR", "ME", "CBW", "RS", "RO2", "RO3"};
     sim.alphabet = full;
     if (const char* a = getenv("C44_ALPHABET")) {
         sim.alphabet.clear();
@@ -483,7 +508,7 @@ int main(int argc, char** argv)
     const std::vector<std::string> chosen = sim.alphabet;
     for (int d = std::min(big ? 3 : 2, depth); d <= std::min(depth, big ? 5 : 4); d++) plans.push_back({d, chosen});
     // thorough: depth 6 over the events that create, conflict and restore wallet transactions
-    if (big && depth >= 6 && chosen == full) plans.push_back({6, {"RM", "S", "M", "AB", "DS", "DM", "RO1", "RX"}});
+    if (big && depth >= 6 && chosen == full) plans.push_back({6, {"RM", "SX", "S", "M", "AB", "DS", "DM", "RO1", "RX"}});
     uint64_t done_states = 0, done_trans = 0, oc_done[16] = {0};
     int done_depth = 0;
     std::string done_alphabet;
@@ -531,9 +556,9 @@ int main(int argc, char** argv)
     E.set_str("alphabet", al);
     E.set("depth", (uint64_t)depth);
     E.set("max_depth_completed", (uint64_t)done_depth);
-    const char* names[] = {"states_with_conflicted_tx", "states_with_abandoned_tx", "states_with_untrusted_pending", "states_with_matured_wallet_coinbase", "transitions_with_reorg", "states_with_reserved_inactive_tx", "states_with_trusted_mempool_coin", "states_with_mempool_conflicted_tx", "states_with_changed_immature_balance", "transitions_restoring_a_conflicted_tx"};
-    for (int i = 0; i < 10; i++) E.set(names[i], oc[i]);
-    E.sample("events: RB/RM receive in block/mempool, S send (commit+submit), SU send (commit only), AB abandon latest inactive, RS resubmit latest inactive/abandoned, M mine mempool, ME mine empty, CBW coinbase to wallet, DS/DR double spend of latest send/receive confirmed on a competing branch (reorg as deep as the victim), DM double spend replaces the latest send in the mempool, RO1-3 reorg to an empty branch, RX re-activate the abandoned branch");
+    const char* names[] = {"states_with_conflicted_tx", "states_with_abandoned_tx", "states_with_untrusted_pending", "states_with_matured_wallet_coinbase", "transitions_with_reorg", "states_with_reserved_inactive_tx", "states_with_trusted_mempool_coin", "states_with_mempool_conflicted_tx", "states_with_changed_immature_balance", "transitions_restoring_a_conflicted_tx", "states_with_untrusted_from_me_mempool_tx"};
+    for (int i = 0; i < 11; i++) E.set(names[i], oc[i]);
+    E.sample("events: RB/RM receive in block/mempool, S send (commit+submit), SX send spending the newest unsafe coin (unconfirmed foreign payment) + oldest safe coin, SU send (commit only), AB abandon latest inactive, RS resubmit latest inactive/abandoned, M mine mempool, ME mine empty, CBW coinbase to wallet, DS/DR double spend of latest send/receive confirmed on a competing branch (reorg as deep as the victim), DM double spend replaces the latest send in the mempool, RO1-3 reorg to an empty branch, RX re-activate the abandoned branch");
     E.sample("example history: S | M | DS | RX  (send confirmed, double spend confirmed on a competing branch: send conflicted, inputs restored to the double spend; old branch re-activated: send confirmed again)");
     if (harness_error) {
         vx::write_evidence();
@@ -542,7 +567,7 @@ int main(int argc, char** argv)
         return 2;
     }
     if (complete && depth >= 4 && sim.alphabet == full && vx::rep().violations == 0) {
-        for (int i = 0; i < 10; i++)
+        for (int i = 0; i < 11; i++)
             if (oc[i] == 0) { printf("HARNESS-ERROR outcome class '%s' never occurred: vacuous exploration\n", names[i]); vx::write_evidence(); return 2; }
     }
     return vx::finish();
